@@ -458,6 +458,8 @@ class Interp:
                     raise _nt(e, '(join over non-list)')
                 if arg.item is None:
                     return Lit('')
+                if getattr(arg, 'exact_one', False):
+                    return self.as_str(self.item_of(arg), e)      # a one-element list: no separator is written
                 return Join(sep, self.as_str(self.item_of(arg), e), arg.src, 1 if getattr(arg, 'nonempty', False) else 0)
             if f.attr == 'get' and e.args:
                 base = self.resolve(self.ev(f.value, env))
@@ -746,7 +748,10 @@ class Interp:
                 cur = env.get(name)
                 names = self.__dict__.setdefault('piece_names', set())
                 if isinstance(cur, ListOf) and not hasattr(cur, 'items'):
-                    cur = Lit('') if cur.item is None else Star(self.as_str(self.item_of(cur), st), cur.src, 1 if getattr(cur, 'nonempty', False) else 0)
+                    if getattr(cur, 'exact_one', False):
+                        cur = self.as_str(self.item_of(cur), st)        # [x]: exactly the one piece
+                    else:
+                        cur = Lit('') if cur.item is None else Star(self.as_str(self.item_of(cur), st), cur.src, 1 if getattr(cur, 'nonempty', False) else 0)
                     names.add(name)
                 if isinstance(cur, T) and name in names:
                     if f.attr == 'append':
@@ -755,7 +760,10 @@ class Interp:
                         lst = self.resolve(self.ev(c.args[0], env))
                         if not isinstance(lst, ListOf):
                             raise _nt(st, '(extend with a non-list)')
-                        piece = Lit('') if lst.item is None else Star(self.as_str(self.item_of(lst), st), lst.src, 1 if getattr(lst, 'nonempty', False) else 0)
+                        if getattr(lst, 'exact_one', False):
+                            piece = self.as_str(self.item_of(lst), st)
+                        else:
+                            piece = Lit('') if lst.item is None else Star(self.as_str(self.item_of(lst), st), lst.src, 1 if getattr(lst, 'nonempty', False) else 0)
                     env[name] = cat(cur, piece)
                     return None
             if self.call_hook is not None:
@@ -836,7 +844,8 @@ class Interp:
             cur = env.get(a)
             if isinstance(cur, ListOf) and cur.item is not None and not hasattr(cur, 'items'):
                 # a second loop appending to the same list: from here on the list is a piece accumulator
-                env[a] = Star(self.as_str(self.item_of(cur), st), cur.src, 1 if getattr(cur, 'nonempty', False) else 0)
+                env[a] = self.as_str(self.item_of(cur), st) if getattr(cur, 'exact_one', False) else \
+                    Star(self.as_str(self.item_of(cur), st), cur.src, 1 if getattr(cur, 'nonempty', False) else 0)
                 self.__dict__.setdefault('piece_names', set()).add(a)
         if getattr(self, '_force_pieces', None):
             for a in mod:
